@@ -316,7 +316,13 @@ private:
 
         // New right child
         __TBB_VERIF_POINT(vp_part_offer_work, this, 2);
+        // The splitting constructor of the range may throw: the new tree node (which owns the split body)
+        // is not attached to anything yet and has to be destroyed here
+        auto tree_node_guard = make_raii_guard([&] {
+            alloc.delete_object(new_tree_node, ed);
+        });
         auto right_child = alloc.new_object<start_deterministic_reduce>(ed, std::forward<Args>(args)..., new_tree_node->right_body, alloc);
+        tree_node_guard.dismiss();
 
         right_child->my_parent = my_parent = new_tree_node;
 
